@@ -790,6 +790,55 @@ pub fn run_clone_actions(node: &Node) {
             }
         }
     }
+    // Actions aimed at the object being cloned: whatever make_mut looked at
+    // before calling Clone (counts, link table) is stale afterwards.
+    let x = node.id.get();
+    let handle_to = |t: Oid| -> Option<(usize, usize)> {
+        let hs = wd.model.borrow().handles();
+        hs.iter().position(|&(_, tt)| tt == t).map(|i| (i, hs.len()))
+    };
+    let drop_roots_of = |t: Oid| {
+        for _ in 0..16 {
+            let (k, n) = {
+                let m = wd.model.borrow();
+                (m.roots.iter().position(|&r| r == t), m.roots.len())
+            };
+            let Some(k) = k else { break };
+            apply_op(&Op::DropRoot(sel_for(k, n)), false);
+        }
+    };
+    match (wd.layout_lo.get() >> 19) & 3 {
+        1 => {
+            // the object joins a ring with a new partner and loses every handle
+            // the program holds: when make_mut releases the caller's old handle,
+            // that handle is the group's last outside handle
+            if wd.model.borrow().n() + 2 < MAX_OBJECTS && handle_to(x).is_some() {
+                label(lab::CLONE_REENTRANT);
+                label(lab::CLONE_RING_IN);
+                apply_op(&Op::New(vec![]), false);
+                let y = (wd.model.borrow().n() - 1) as Oid;
+                if let (Some((iy, len)), Some((ix, _))) = (handle_to(y), handle_to(x)) {
+                    apply_op(&Op::Store { owner: sel_for(iy, len), target: sel_for(ix, len), adopt: 1 }, false);
+                }
+                if let (Some((iy, len)), Some((ix, _))) = (handle_to(y), handle_to(x)) {
+                    apply_op(&Op::Store { owner: sel_for(ix, len), target: sel_for(iy, len), adopt: 2 }, false);
+                }
+                drop_roots_of(y);
+                drop_roots_of(x);
+            }
+        }
+        2 => {
+            // every other handle to the object disappears: the caller's old
+            // handle is the last one when make_mut releases it
+            if let Some((ix, len)) = handle_to(x) {
+                label(lab::CLONE_REENTRANT);
+                label(lab::CLONE_MAKES_UNIQUE);
+                apply_op(&Op::StripHandlesTo { target: sel_for(ix, len), unadopt: true, keep: false }, false);
+                drop_roots_of(x);
+            }
+        }
+        _ => {}
+    }
 }
 
 pub fn run_dacts(node: &mut Node, ds: &[DAct]) {
